@@ -1553,3 +1553,7 @@ mod tests {
         assert_eq!(pre, expected_after);
     }
 }
+
+// Verification hook (inert unless built by `cargo kani`, which sets --cfg kani).
+#[cfg(kani)]
+mod verif_kani;
